@@ -369,7 +369,7 @@ class Session:
     def record(self, step, what, call, scalars=None):
         ent = {"step": step, "what": what, "call": call, "scalars": scalars or {},
                "lists": {n: {"list": self.token(l, "L"),
-                             "events": [[self.token(o, "E")] + list(json_spec(spec_of(o))) for o in l]}
+                             "events": [[self.token(o, "E")] + list(json_spec(spec_of(o))) + [self.token(o.data, "D")] for o in l]}
                          for n, l in self.lists.items()}}
         self.log.append(ent)
         return ent
@@ -426,52 +426,123 @@ def _parse_typed(s):
     return ast.literal_eval(s)
 
 
+def materialise(st, objs, Event):
+    """the argument lists of a logged step, rebuilt with the logged identity structure (`objs`: token -> object,
+    carried from step to step) and the logged field values"""
+    args = []
+    for n, l in st["lists"].items():
+        lst = objs.setdefault(l["list"], [])
+        evs = []
+        for ent in l["events"]:
+            tok, t, d, x, i = ent[:5]
+            dtok = ent[5] if len(ent) > 5 else None
+            val = _parse_typed(x)
+            e = objs.get(tok)
+            existed = e is not None
+            if not existed:
+                e = objs[tok] = mk_event(Event, t, d, val, i)
+            else:
+                if spec_of(e)[0] != t:
+                    e.timestamp = dt_zoned(t)
+                if spec_of(e)[1] != d:
+                    e.duration = timedelta(microseconds=d)
+                if e.id != i:
+                    e.id = i
+            if dtok is None:
+                if not strict_eq(e.data, val):
+                    e.data = val
+            elif dtok in objs:                 # a dict seen before: the same object, edited in place if its content differs
+                known = objs[dtok]
+                if e.data is not known:
+                    e.data = known
+                if not strict_eq(known, val) or list(known) != list(val):
+                    known.clear()
+                    known.update(val)
+            else:                              # a dict not seen before: (re)bound
+                if existed:
+                    e.data = val
+                objs[dtok] = e.data
+            evs.append(e)
+        lst[:] = evs
+        args.append(lst)
+    return args
+
+
+def run_steps(steps, Event, call, judge=None):
+    """Re-runs logged steps on rebuilt objects: call(step, args) -> result for every step, judge(step, args) ->
+    verdict for the last one when given.  Returns the last result / verdict."""
+    objs, prev, out = {}, None, None
+    for k, st in enumerate(steps):
+        args = materialise(st, objs, Event)
+        if "vandal" in st["step"] and isinstance(prev, list):
+            vandalise(prev, {id(o) for a in args for o in a})
+        if judge is not None and k == len(steps) - 1:
+            return judge(st, args)
+        out = prev = call(st, args)
+    return out
+
+
+def minimise_session(log, Event, call, judge, sig, max_steps=60):
+    """log: the steps up to and including the failing call.  Drops earlier steps while the last call still fails
+    the clause `sig` on rebuilt objects; returns the full log when the failure does not reproduce that way."""
+    from .common import shrink_list
+    last = log[-1]
+
+    def fails(cand):
+        try:
+            m = run_steps(list(cand) + [last], Event, call, judge)
+        except Exception:  # noqa: BLE001
+            return False
+        return m is not None and m.split(":")[0] == sig
+    if not fails(log[:-1]):
+        return list(log), False
+    return shrink_list(log[:-1], fails, max_steps) + [last], True
+
+
+def session_replay(steps, minimal):
+    return {"session": steps, "minimised": bool(minimal),
+            "how_to_read": "calls made one after the other in one process; lists / events / data dicts with the same token "
+                           "are the same Python object (fields as they were at that call); event = [token, timestamp_us, "
+                           "duration_us, data (typed text), id, data-dict token]",
+            "rerun_hint": "PYTHONPATH=<repo>:/verif /venv/bin/python -m harness.txhist replay <this file>"}
+
+
+def generic_call(ql):
+    import importlib
+
+    def call(st, args):
+        c = st["call"]
+        extra = list(st.get("scalars", {}).values())
+        if c["route"] == "direct":
+            return getattr(importlib.import_module(c["module"]), c["name"])(*args, *extra)
+        return ql.call(c["route"], c["name"], *args, *extra)
+    return call
+
+
 def replay_main(path):
     """Re-run the calls of a session log against the tree on PYTHONPATH and print what comes back."""
     from . import common
     common.setup_impl_env()
     from aw_core.models import Event
-    import importlib
     obj = json.load(open(path))
     r = obj.get("replay", obj)
     steps = r.get("session") or []
     if not steps:
         print("no session in", path)
         return 2
-    ql = QueryLayer()
-    objs, prev = {}, None
-    for k, st in enumerate(steps):
-        args = []
-        for n, l in st["lists"].items():
-            lst = objs.setdefault(l["list"], [])
-            evs = []
-            for tok, t, d, x, i in l["events"]:
-                e = objs.get(tok)
-                if e is None:
-                    e = objs[tok] = mk_event(Event, t, d, _parse_typed(x), i)
-                else:
-                    if spec_of(e)[:2] != (t, d):
-                        e.timestamp, e.duration = dt_zoned(t), timedelta(microseconds=d)
-                    if not strict_eq(e.data, _parse_typed(x)):
-                        e.data = _parse_typed(x)
-                    e.id = i
-                evs.append(e)
-            lst[:] = evs
-            args.append(lst)
-        if "vandal" in st["step"] and prev is not None:
-            vandalise(prev, {id(o) for a in args for o in a})
-        call = st["call"]
-        extra = list(st.get("scalars", {}).values())
-        if call["route"] == "direct":
-            mod = importlib.import_module(call["module"])
-            out = getattr(mod, call["name"])(*args, *extra)
-        else:
-            out = ql.call(call["route"], call["name"], *args, *extra)
-        prev = out
-        print(f"call {k} [{st['step']}] {call['route']}:{call['name']} {st['what']}")
+    call = generic_call(QueryLayer())
+
+    def show(st, args):
+        out = call(st, args)
+        c = st["call"]
+        print(f"call [{st['step']}] {c['route']}:{c['name']}  -- {st['what']}")
         for n, a in zip(st["lists"], args):
             print("   ", n, "=", [json_spec(spec_of(e)) for e in a])
+        if st.get("scalars"):
+            print("    scalars", st["scalars"])
         print("    ->", [json_spec(spec_of(e)) for e in out] if isinstance(out, list) else out)
+        return out
+    run_steps(steps, Event, show)
     return 0
 
 
